@@ -69,6 +69,11 @@ func (m *Machine) freshAtom(prefix string) *Term {
 
 // ---------- strings ----------
 
+type splitKey struct {
+	at  *Term
+	sep string
+}
+
 const maxSplitParts = 3 // a symbolic atom is split into at most 3 parts (2 separators)
 const maxTrim = 2
 
@@ -248,7 +253,16 @@ func (m *Machine) dropPrefix(s, p Str) Str {
 		}
 		// leading atom: introduce the remainder as a fresh atom
 		if len(s.segs) > 0 && s.segs[0].t != nil {
-			r := m.freshAtom("rest")
+			mk := splitKey{s.segs[0].t, "prefix:" + cp}
+			pair, seen := m.splitMemo[mk]
+			if !seen {
+				pair = [2]*Term{m.freshAtom("rest"), nil}
+				if m.splitMemo == nil {
+					m.splitMemo = map[splitKey][2]*Term{}
+				}
+				m.splitMemo[mk] = pair
+			}
+			r := pair[0]
 			m.addPC(TEq(s.segs[0].t, TConcat(TStr(cp), r)))
 			segs := append([]Seg{{t: r}}, s.segs[1:]...)
 			return Str{segs: segs}
@@ -326,7 +340,17 @@ func (m *Machine) splitStr(s, sep Str, n int) []Str {
 			if !m.branch(has) {
 				break
 			}
-			a1, a2 := m.freshAtom("sp"), m.freshAtom("sp")
+			// the same atom split again on this path yields the same components
+			mk := splitKey{at, csep}
+			pair, seen := m.splitMemo[mk]
+			if !seen {
+				pair = [2]*Term{m.freshAtom("sp"), m.freshAtom("sp")}
+				if m.splitMemo == nil {
+					m.splitMemo = map[splitKey][2]*Term{}
+				}
+				m.splitMemo[mk] = pair
+			}
+			a1, a2 := pair[0], pair[1]
 			m.addPC(TEq(at, TConcat(a1, TStr(csep), a2)))
 			m.addPC(TNot(TContains(a1, TStr(csep))))
 			if m.freshAtoms[at] {
@@ -394,7 +418,18 @@ func registerMisc(e *Engine) {
 		if c, ok := s.Const(); ok {
 			return ro.re.MatchString(c)
 		}
-		return mkBool(TUF(fmt.Sprintf("re#%d", ro.id), SBool, s.Term()))
+		// distribute over if-then-else so that constant alternatives are decided natively
+		var match func(t *Term) *Term
+		match = func(t *Term) *Term {
+			if t.kind == KConst && t.sort == SStr {
+				return TBool(ro.re.MatchString(t.s))
+			}
+			if t.kind == KApp && t.op == "ite" && len(t.args) == 3 {
+				return TIte(t.args[0], match(t.args[1]), match(t.args[2]))
+			}
+			return TUF(fmt.Sprintf("re#%d", ro.id), SBool, t)
+		}
+		return mkBool(match(s.Term()))
 	}
 	in["(*regexp.Regexp).FindAllStringSubmatch"] = func(m *Machine, fr *frame, a []Value) Value {
 		o := a[0].(*Opaque)
